@@ -91,8 +91,10 @@ extern "C" int masa_select_mms(const char* function_user_wants)
 
 extern "C" int masa_get_name(char* name)
 {
-  std::string fuw(name);
+  std::string fuw;
   masa_get_name<double>(&fuw);
+  fuw.copy(name,fuw.size());
+  name[fuw.size()] = '\0';
   return 0;
 }
 
@@ -116,14 +118,12 @@ extern "C" int masa_purge_default_param()
 
 extern "C" int masa_init_param()
 {
-  masa_init_param<double>();
-  return 0;
+  return masa_init_param<double>();
 }
 
 extern "C" int masa_sanity_check()
 {
-  masa_sanity_check<double>();
-  return 0;
+  return masa_sanity_check<double>();
 }
 
 extern "C" int masa_display_param()
@@ -148,7 +148,7 @@ extern "C" int masa_get_array(const char* param,int *n,double* array)
 {
   // grab vector
   std::vector<double> vec;
-  masa_get_vec<double>(param,vec);
+  int err = masa_get_vec<double>(param,vec);
 
   // copy size to 'n'
   (*n) = int(vec.size());
@@ -159,7 +159,7 @@ extern "C" int masa_get_array(const char* param,int *n,double* array)
     array[i]=vec[i];
   }
 
-  return 0;
+  return err;
 }
 
 extern "C" void masa_set_param(const char* param,double val)
